@@ -1346,7 +1346,7 @@ func parseTimezone(str string) compact_time.Timezone {
 			strs := r.FindAllStringSubmatch(str[1:], -1)[0]
 			latitude := parseCoord(strs[1])
 			longitude := parseCoord(strs[3])
-			return compact_time.TZAtLatLong(int(latitude*100), int(longitude*100))
+			return compact_time.TZAtLatLong(int(math.Round(latitude*100)), int(math.Round(longitude*100)))
 		} else {
 			return compact_time.TZAtAreaLocation(str[1:])
 		}
